@@ -55,13 +55,19 @@ peg::parser! {
             ['\\'] [c] { c.to_string() }
 
         rule bracket_expression() -> String =
-            "[" invert:(invert_char()?) members:bracket_member()+ "]" {
-                let mut members = members.into_iter().flatten().collect::<Vec<_>>();
+            // N.B. A `]` right after the opening bracket (or the inversion character) is an
+            // ordinary member rather than the end of the expression.
+            "[" invert:(invert_char()?) leading:(leading_close_bracket()?) rest:bracket_member()* "]" {?
+                if leading.is_none() && rest.is_empty() {
+                    return Err("empty bracket expression");
+                }
+
+                let mut members = leading.into_iter().chain(rest.into_iter().flatten()).collect::<Vec<_>>();
 
                 // If we completed the parse but ended up with no valid members
                 // of the bracket expression, then return a regex that matches nothing.
                 // (Or in the inverted case, matches everything.)
-                if members.is_empty() {
+                Ok(if members.is_empty() {
                     if invert.is_some() {
                         String::from(".")
                     } else {
@@ -73,8 +79,11 @@ peg::parser! {
                     }
 
                     std::format!("[{}]", members.join(""))
-                }
+                })
             }
+
+        rule leading_close_bracket() -> String =
+            "]" { String::from(r"\]") }
 
         rule invert_char() -> bool =
             ['!' | '^'] { true }
